@@ -277,30 +277,34 @@ def TA.cons : TA → Option Cons
 
 /-! ## `tightening_steps_from_other_to_that_constraints` (length and patterns) -/
 
+/-- the length part: `none` if the parent's constraint is the same -/
+def tightenLen (that other : Cons) : Except Crash (Option LenC) :=
+  match other.len with
+  | some ol =>
+    match that.len with
+    | none => .error .relaxedLen
+    | some tl => .ok (if tl = ol then none else some tl)
+  | none => .ok that.len
+
+/-- the pattern part: only the patterns the parent does not have -/
+def tightenPats (that other : Cons) : Except Crash (Option (List Text)) :=
+  match other.pats with
+  | some ops =>
+    match that.pats with
+    | none => .error .relaxedPatterns
+    | some tps =>
+      if ops.all (tps.contains ·) then
+        let rest := tps.filter (fun p => !ops.contains p)
+        .ok (if rest.isEmpty then none else some rest)
+      else .error .fewerPatterns
+  | none => .ok that.pats
+
 def tightening (that : Cons) : Option Cons → Except Crash Cons
   | none => .ok that
   | some other =>
-    let lenE : Except Crash (Option LenC) :=
-      match other.len with
-      | some ol =>
-        match that.len with
-        | none => .error .relaxedLen
-        | some tl => .ok (if tl = ol then none else some tl)
-      | none => .ok that.len
-    let patsE : Except Crash (Option (List Text)) :=
-      match other.pats with
-      | some ops =>
-        match that.pats with
-        | none => .error .relaxedPatterns
-        | some tps =>
-          if ops.all (tps.contains ·) then
-            let rest := tps.filter (fun p => !ops.contains p)
-            .ok (if rest.isEmpty then none else some rest)
-          else .error .fewerPatterns
-      | none => .ok that.pats
-    match lenE with
+    match tightenLen that other with
     | .error c => .error c
-    | .ok l => match patsE with
+    | .ok l => match tightenPats that other with
       | .error c => .error c
       | .ok ps => .ok ⟨l, ps⟩
 
